@@ -19,7 +19,7 @@ var initAllow = map[string]bool{
 	"strings": true, "bytes": true, "strconv": true, "encoding/binary": true, "hash/crc32": true,
 	"math": true, "math/bits": true, "sort": true, "path": true, "path/filepath": true, "encoding/hex": true,
 	"bufio": true, "slices": true, "maps": true, "cmp": true, "hash": true, "hash/crc64": true, "time": true,
-	"os": true, "syscall": true, "internal/oserror": true, "internal/bytealg": false,
+	"os": true, "syscall": true, "regexp": true, "regexp/syntax": true, "internal/oserror": true, "internal/bytealg": false,
 }
 
 func (e *Engine) initWanted(p *ssa.Package) bool {
